@@ -74,10 +74,11 @@ def gen_softmax(rng, idx):
     dtype = rng.choice(["int8"] * 5 + ["uint8"] * 3 + ["int16"] * 1)
     b = make_builder(rng, f"c01_softmax_{idx}", dtype)
     h, w, c = rng.choice([1, 1, 2, 3, 5]), rng.choice([1, 1, 2, 4, 7]), rng.choice([1, 2, 3, 5, 10, 16, 17, 33, 40])
-    x = b.input([1, h, w, c])
-    b.net.desc.append(f"profile=softmax dtype={dtype} in={[1, h, w, c]}")
+    n = rng.choice([1] * 8 + [2, 3])          # batch > 1 is accepted for SOFTMAX (folded into the height)
+    x = b.input([n, h, w, c])
+    b.net.desc.append(f"profile=softmax dtype={dtype} in={[n, h, w, c]}")
     cur = x
-    pre = rng.choice(["none", "none", "conv1x1", "fc", "add_self", "reshape2", "reshape3"])
+    pre = rng.choice(["none", "none", "conv1x1", "fc", "add_self", "reshape2", "reshape3"]) if n == 1 else "none"
     b.net.desc.append(pre)
     if pre == "conv1x1":
         cur = b.conv(cur, rng.choice([2, 5, 10, 16, 21]), (1, 1), (1, 1), (1, 1), "SAME", act=0)
